@@ -17,7 +17,7 @@ def arity_of(shape):
     return len([ch for ch in shape if ch not in "Ns"])
 
 ALL_POLICIES = ["fast", "chk", "vec", "map", "ind", "indvec", "indfast", "thr", "old", "prj", "prjmap",
-                "dbg", "rel", "rem", "stdd", "stdr", "stdmap", "wide", "widemap", "dfr", "dfrh"]
+                "dbg", "rel", "rem", "stdd", "stdr", "stdmap", "wide", "widemap", "small", "smallchk", "dfr", "dfrh"]
 # policies whose ids are eager (not deferred)
 EAGER_POLICIES = [p for p in ALL_POLICIES if p not in ("dfr", "dfrh")]
 THROWING = [p for p in ALL_POLICIES]  # every policy supports a throwing handler
